@@ -118,15 +118,15 @@ variable {V : Type}
 
 /-- **/W**: every field of every row written fits the width announced for its column, so the bytes of
     the row decode to the row -/
-theorem width_fits (P : Params V) (L : Layout) (hL : L.Pos) (d0 d d' : Doc V) (chain0) (i : SaveInfo)
-    (hb : BaseOK d0 chain0) (hi : Inv d0 d) (h : save P L d = (d', .ok i)) :
+theorem width_fits_c (P : Params V) (L : Layout) (hL : L.Pos) (d0 d d' : Doc V) (chain0) (i : SaveInfo)
+    (hb : BaseOK d0 chain0) (hi : Inv d0 d) (h : Committed P L d d'.st i) :
     1 ≤ i.aw ∧ 1 ≤ i.bw ∧
     ∀ r ∈ i.rows, ∀ ty a b, fieldsOf r = some (ty, a, b) →
       a < 256 ^ i.aw ∧ b < 256 ^ i.bw ∧
       rowBytes i.aw i.bw r = ty :: (beBytes i.aw a ++ beBytes i.bw b) ∧
       decodeBE (beBytes i.aw a) = a ∧ decodeBE (beBytes i.bw b) = b := by
-  have sh := save_shape P L hL d0 d d' chain0 i hb hi h
-  have hw := save_ok_widths P L d d' i h
+  have sh := save_shape_c P L hL d0 d d' chain0 i hb hi h
+  have hw := save_ok_widths_c P L d d' i h
   simp only [widths] at hw
   have haw : i.aw = byteLen (maxFields d'.st.refs).1 := by
     have := congrArg Prod.fst hw; simpa using this
@@ -145,5 +145,14 @@ theorem width_fits (P : Params V) (L : Layout) (hL : L.Pos) (d0 d d' : Doc V) (c
   have ha : a < 256 ^ i.aw := by rw [haw]; exact Nat.lt_of_le_of_lt m1 (lt_pow_byteLen _)
   have hb' : b < 256 ^ i.bw := by rw [hbw]; exact Nat.lt_of_le_of_lt m2 (lt_pow_byteLen _)
   exact ⟨ha, hb', by simp [rowBytes, hf], decode_beBytes _ _ ha, decode_beBytes _ _ hb'⟩
+
+theorem width_fits (P : Params V) (L : Layout) (hL : L.Pos) (d0 d d' : Doc V) (chain0) (i : SaveInfo)
+    (hb : BaseOK d0 chain0) (hi : Inv d0 d) (h : save P L d = (d', .ok i)) :
+    1 ≤ i.aw ∧ 1 ≤ i.bw ∧
+    ∀ r ∈ i.rows, ∀ ty a b, fieldsOf r = some (ty, a, b) →
+      a < 256 ^ i.aw ∧ b < 256 ^ i.bw ∧
+      rowBytes i.aw i.bw r = ty :: (beBytes i.aw a ++ beBytes i.bw b) ∧
+      decodeBE (beBytes i.aw a) = a ∧ decodeBE (beBytes i.bw b) = b :=
+  width_fits_c P L hL d0 d d' chain0 i hb hi (committed_of_ok P L d d' i h)
 
 end Storage
